@@ -444,7 +444,7 @@ class Grid(object):
 
     def __hash__(self):
         h = xxhash.xxh64()
-        h.update(self._coordinate_system)
+        h.update(self._coordinate_system.encode())
 
         if self.is_regular:
             h.update(self.delta)
